@@ -1,5 +1,7 @@
 """C19 - generator specifications parse back to the path and arguments that were written (structural clauses)."""
 import re
+import rule_scopes
+import guards
 
 from mirlib import AnchorMissing, path_matches, op_place
 from helpers import aggregates, field_accesses, loop_of, must_pass, vexpr, branches_on_call, ok_dominates
@@ -189,6 +191,10 @@ def r_arguments_unchanged(r, prog):
     r.floor(9)
 
 
+
+def r_plugin_parser_preconditions(r, prog):
+    guards.evaluate(r, prog, rule_scopes.guards_plugin_parser, 'guards_plugin_parser.json', 15)
+
 def run(ctx):
     prog = ctx.prog
     ctx.run_rule('C19.1', 'T7', 'no undischarged panic site in plugin_parser', r_no_crash, prog)
@@ -196,3 +202,4 @@ def run(ctx):
     ctx.run_rule('C19.3', 'T9', 'the character loop consumes on every iteration', r_loop_progress, prog)
     ctx.run_rule('C19.4', 'T6', 'syntax tables: dispatch set, escape set, trimming and validation of trimmed values', r_syntax_tables, prog)
     ctx.run_rule('C19.5', 'T1', 'arguments reach the generator unchanged and in order', r_arguments_unchanged, prog)
+    ctx.run_rule('C19.6', 'T13', 'conditions under which plugin_parser opens a pair, switches state, trims, rejects and returns (precondition ledger)', r_plugin_parser_preconditions, prog)
